@@ -43,7 +43,9 @@ RULE = ("cooling programs drawn from a structured generator (0-4 holds, duration
         "arbitrary, ramps shorter than a step, t_tot not a multiple of dt), object histories (sample / edit the program / "
         "run a consumer on the SAME object, then sample: must equal a fresh object with the current program; the model is a "
         "pure function, so this clause rests on the correspondence), an exact dyadic stream compared "
-        "against the model instantiated at Rat, and a small malformed stream; a case is non-trivial when the "
+        "against the model instantiated at Rat, a few programs stepped through by the homogeneous Snowing model "
+        "(own step 0.1 s, configured solutions with T_eq != 0: the recorded shelf history must be the sampled program), "
+        "and a small malformed stream; a case is non-trivial when the "
         "program has at least one ramp sample and is distinct by its JSON form")
 EXPLANATION = "Lean theorems over the reals about the profile model + differential check of the model against OperatingConditions.tempProfile"
 PARALLEL = True
@@ -152,6 +154,40 @@ def _apply_history(oc, case):
     return notes
 
 
+_CFG0D_TEQ = {}
+
+
+def _observe_consumer0d(case):
+    import tempfile
+
+    import numpy as np
+
+    spec = case["consumer0D"]
+    teq = spec["T_eq"]
+    if teq not in _CFG0D_TEQ:
+        f = tempfile.NamedTemporaryFile("w", suffix=".yaml", delete=False, prefix="snowverif_c05_")
+        f.write("snowing_parameters:\n  dimensionality: homogeneous\n  configuration: shelf\n"
+                f"solution:\n  T_eq: {teq}\n")
+        f.close()
+        _CFG0D_TEQ[teq] = f.name
+    try:
+        from ethz_snow.snowing import Snowing
+
+        oc = _mk_opcond(case)
+        S = Snowing(k={"int": 0, "ext": 0, "s0": spec["s0"]}, opcond=oc, configPath=_CFG0D_TEQ[teq])
+        S.run()
+        sh = np.asarray(S.shelfTemp, dtype=float)
+        p = np.asarray(_mk_opcond(case).tempProfile(0.1), dtype=float)
+        out = {"raise": None, "len_shelf": int(len(sh)), "len_profile": int(len(p))}
+        if len(sh) == len(p):
+            d = np.abs(sh - p)
+            out["maxdiff"] = float(d.max()) if len(d) else 0.0
+            out["argmax"] = int(d.argmax()) if len(d) else 0
+        return out
+    except Exception as e:
+        return {"raise": core.exc_class(e), "msg": str(e)[:200]}
+
+
 def run_impl(case):
     obs = {"raise": None}
     try:
@@ -186,6 +222,9 @@ def run_impl(case):
             obs["profile_rev"] = [float(x) for x in p2]
         except Exception as e:
             obs["profile_rev"] = {"raise": core.exc_class(e)}
+    # a consumer with its own fixed step: the homogeneous Snowing model (dt = 0.1 s), configured solution
+    if case.get("consumer0D"):
+        obs["consumer0D"] = _observe_consumer0d(case)
     # a consumer: 1x1 Snowflake stepping through the whole profile
     if case.get("flake"):
         try:
@@ -340,6 +379,18 @@ def predicates(case, impl):
         cls = "short" if len(p) < n else "long"
         out.append(Failure(clause="profile_length", key=f"profile_length|{site}|{cls}",
                            detail=f"len(tempProfile)={len(p)} but ceil(t_tot/dt)+1={n}"))
+    c0 = impl.get("consumer0D")
+    if c0 is not None:
+        if c0.get("raise"):
+            out.append(Failure(clause="consumers_in_range", key=f"consumers_in_range|Snowing._run_0D|{c0['raise']}",
+                               detail=f"homogeneous Snowing run over this program raises {c0['raise']}: {c0.get('msg')}"))
+        elif c0["len_shelf"] != c0["len_profile"]:
+            out.append(Failure(clause="consumer_steps_through_profile", key="consumer_profile|Snowing._run_0D|length",
+                               detail=f"recorded shelf history has {c0['len_shelf']} entries, tempProfile(0.1) {c0['len_profile']}"))
+        elif c0["maxdiff"] > 1e-9:
+            out.append(Failure(clause="consumer_steps_through_profile", key="consumer_profile|Snowing._run_0D|values",
+                               detail=f"recorded shelf temperature differs from the sampled program by {c0['maxdiff']} K "
+                                      f"at step {c0['argmax']} (T_eq = {case['consumer0D']['T_eq']})"))
     if impl.get("flake") not in (None, "ok"):
         out.append(Failure(clause="consumers_in_range", key=f"consumers_in_range|Snowflake.run|{impl['flake']}",
                            detail=f"1x1 Snowflake.run() over this program raises {impl['flake']}"))
@@ -572,8 +623,25 @@ def _history_consumer(rng):
     return c
 
 
+def _consumer0d(rng):
+    """a program deep and long enough for the homogeneous Snowing model to complete; the consumer's recorded shelf
+    temperature must be the sampled program, also for a configured solution with T_eq != 0"""
+    start = rng.choice([20, 10, 4.5])
+    stop = rng.choice([-40, -45.5])
+    rate = rng.choice([0.5, 0.25])
+    nh = rng.choice([0, 1, 2])
+    holds = [[rng.choice([0, -5, -10.5, start]), rng.choice([20, 100, 33.3])] for _ in range(nh)]
+    ramp = (start - stop) / rate
+    t_tot = ramp + sum(h[1] for h in holds) + rng.choice([1500, 2000.05])
+    return dict(kind="consumer0D", t_tot=t_tot, start=start, stop=stop, rate=rate,
+                holds=(holds if nh else None), isList=True, dt=rng.choice([0.1, 1, 2.5]),
+                consumer0D={"T_eq": rng.choice([0, 3.8, -1.5]), "s0": 400})
+
+
 def cases(rng, tier):
     n_struct, n_exact, n_mal = (1500, 600, 40) if tier == "quick" else (40000, 12000, 400)
+    for _ in range(4 if tier == "quick" else 40):
+        yield _consumer0d(rng)
     for _ in range(120 if tier == "quick" else 2500):
         yield _history(rng)
     for _ in range(40 if tier == "quick" else 600):
